@@ -28,6 +28,21 @@ func cworkload(w int) [][]cop {
 			{{k: "c", v: 3}},
 			{{k: "a", v: 4}, {k: "b", v: 5}, {k: "c", v: 6}},
 		}
+	case 4: // short: one rotation, then a newer version of its key in the active memtable
+		return [][]cop{
+			{{k: "a", v: 1}},
+			{{k: "b", v: 2}},
+			{{k: "a", v: 3}},
+		}
+	case 3: // a multi-key transaction that arrives when the memtable is nearly full (MEMTHR 44:
+		// two entries = 42 bytes), so its writes straddle the rotation; then more commits
+		return [][]cop{
+			{{k: "a", v: 1}},
+			{{k: "b", v: 2}},
+			{{k: "a", v: 3}, {k: "b", v: 4}, {k: "c", v: 5}},
+			{{k: "c", v: 6}},
+			{{k: "a", v: 7}, {k: "c", v: 8}},
+		}
 	case 2: // deletes and overwrites that end up in different levels
 		return [][]cop{
 			{{k: "a", v: 1}},
@@ -51,7 +66,7 @@ func cworkload(w int) [][]cop {
 
 func ckeys(w int) []string {
 	switch w {
-	case 1:
+	case 1, 3:
 		return []string{"a", "b", "c"}
 	case 2:
 		return []string{"a", "a@", "b"}
@@ -74,6 +89,12 @@ func VH_C03_P1() {
 	db, err := Open(vf.Dir(), cconfig())
 	vf.Assert("C03.p1.open", err == nil)
 	drain := vf.Param("DRAIN", 1) == 1
+	stall := vf.Param("STALL", 0) == 1
+	if stall {
+		// a flusher that is slower than the writers: it cannot enter the level manager until
+		// the workload is over, so Close finds flushes pending
+		db.manager.mu.Lock()
+	}
 	for i, t := range txns {
 		vf.Record("inflight", i)
 		err := db.Update(func(txn *Txn) error {
@@ -92,7 +113,15 @@ func VH_C03_P1() {
 			vDrain(db)
 		}
 	}
-	vDrain(db)
+	if vf.Param("ZONE", 0) == 1 {
+		vf.Record("zone", 1) // (jobs with ZoneOnly explore schedules and crash points from here on)
+	}
+	if stall {
+		db.manager.mu.Unlock()
+	}
+	if vf.Param("FINALDRAIN", 1) == 1 {
+		vDrain(db)
+	}
 	l0, deeper := vfiles(db)
 	if l0+deeper > 0 {
 		vf.Cover("C03.p1.flushed")
@@ -224,12 +253,24 @@ func VH_C03_P2() {
 	err = db.Update(func(txn *Txn) error { return txn.Set(keys[0], []byte{cpostValue}) })
 	vf.Assert("C03.post.commit", err == nil)
 	vf.Record("post.acked", 1)
+	// ... and keeps working: further commits drive rotations, flushes and a compaction of the
+	// recovered tables (under the recovered watermark) before the next restart
+	postN := vf.Param("POSTN", 3)
+	for i := 0; i < postN; i++ {
+		v := byte(0xD0 + i)
+		vf.Assert("C03.post.more-commits", db.Update(func(txn *Txn) error { return txn.Set("p", []byte{v}) }) == nil)
+		vDrain(db)
+	}
 	check := func(tag string, d *DB) {
 		_ = d.View(func(txn *Txn) error {
 			for _, k := range keys {
 				g, ok := txn.Get(k)
 				if k == keys[0] {
 					vf.Assert(tag+"."+k, ok && len(g) == 1 && g[0] == cpostValue)
+					if postN > 0 {
+						pg, pok := txn.Get("p")
+						vf.Assert(tag+".p", pok && len(pg) == 1 && pg[0] == byte(0xD0+postN-1))
+					}
 				} else {
 					vf.Assert(tag+"."+k, ok == found[k] && (!ok || string(g) == string(got[k])))
 				}
